@@ -400,7 +400,7 @@ impl<T: Config> UdpProtocol<T> {
 
                 // trigger a NetworkInterrupted event if we didn't receive a packet for some time
                 if !self.disconnect_notify_sent
-                    && self.last_recv_time + self.disconnect_notify_start < now
+                    && now.duration_since(self.last_recv_time) > self.disconnect_notify_start
                 {
                     let duration: Duration = self
                         .disconnect_timeout
@@ -413,7 +413,7 @@ impl<T: Config> UdpProtocol<T> {
 
                 // if we pass the disconnect_timeout threshold, send an event to disconnect
                 if !self.disconnect_event_sent
-                    && self.last_recv_time + self.disconnect_timeout < now
+                    && now.duration_since(self.last_recv_time) > self.disconnect_timeout
                 {
                     self.event_queue.push_back(Event::Disconnected);
                     self.disconnect_event_sent = true;
